@@ -84,7 +84,7 @@ func genBLCase(t *rapid.T) BLCase {
 		case 0, 1:
 			return BLOp{Op: "addbit", Bit: rapid.Bool().Draw(t, "b")}
 		case 2, 3:
-			n := rapid.SampledFrom([]int{0, 1, 2, 3, 4, 5, 7, 8, 9, 10, 11, 12, 13, 16, 17, 18, 31, 32, 33, 63, 64}).Draw(t, "n")
+			n := rapid.SampledFrom([]int{0, 1, 2, 3, 4, 5, 7, 8, 9, 10, 11, 12, 13, 16, 17, 18, 31, 32, 33, 63, 64, 65, 70, 96, 128, 200, 255}).Draw(t, "n")
 			var v int64
 			switch rapid.IntRange(0, 3).Draw(t, "vk") {
 			case 0:
@@ -104,6 +104,9 @@ func genBLCase(t *rapid.T) BLCase {
 		case 8:
 			return BLOp{Op: "bytes"}
 		case 9:
+			if rapid.IntRange(0, 2).Draw(t, "two") == 0 {
+				return BLOp{Op: "iter2"}
+			}
 			return BLOp{Op: "iter"}
 		case 10:
 			return BLOp{Op: "bulk", V: int64(rapid.IntRange(0, 1<<20).Draw(t, "pat")), N: rapid.IntRange(0, 70).Draw(t, "n")}
@@ -191,7 +194,7 @@ func checkBitList(t TB, c BLCase) (words int, crossed bool, setAfterAppend bool)
 	appended := false
 	for step, op := range c.Ops {
 		var getGot, getWant bool
-		var iterGot []byte
+		var iterGot, iter2Got []byte
 		pv := try(func() {
 			switch op.Op {
 			case "addbit":
@@ -219,6 +222,22 @@ func checkBitList(t TB, c BLCase) (words int, crossed bool, setAfterAppend bool)
 				for b := range bl.IterateBytes() {
 					iterGot = append(iterGot, b)
 				}
+			case "iter2": // two channel views of the unchanged list, the second one opened while the first is half read
+				first := bl.IterateBytes()
+				half := (len(model) + 7) / 8 / 2
+				for i := 0; i < half; i++ {
+					b, ok := <-first
+					if !ok {
+						break
+					}
+					iterGot = append(iterGot, b)
+				}
+				for b := range bl.IterateBytes() {
+					iter2Got = append(iter2Got, b)
+				}
+				for b := range first {
+					iterGot = append(iterGot, b)
+				}
 			}
 		})
 		if pv != nil {
@@ -230,7 +249,8 @@ func checkBitList(t TB, c BLCase) (words int, crossed bool, setAfterAppend bool)
 			appended = true
 		case "addbits":
 			for i := op.N - 1; i >= 0; i-- {
-				model = append(model, (uint64(op.V)>>uint(i))&1 == 1)
+				// bit i of the two's-complement integer; beyond bit 63 that is the sign (counts up to 255 are accepted)
+				model = append(model, (op.V>>uint(min(i, 63)))&1 == 1)
 			}
 			appended = appended || op.N > 0
 		case "addbyte":
@@ -262,6 +282,14 @@ func checkBitList(t TB, c BLCase) (words int, crossed bool, setAfterAppend bool)
 			}
 		case "bytes":
 			// compared below
+		case "iter2":
+			want := packModel(model)
+			if string(iterGot) != string(want) {
+				fail(step, "a channel view that was half read when a second view was opened yielded % x, model % x", trunc(iterGot), trunc(want))
+			}
+			if string(iter2Got) != string(want) {
+				fail(step, "the second of two simultaneous channel views yielded % x, model % x", trunc(iter2Got), trunc(want))
+			}
 		case "iter":
 			want := packModel(model)
 			got := iterGot
@@ -363,11 +391,11 @@ func TestC18Exhaustive(t *testing.T) {
 	defer st.Flush()
 	alphabet := []BLOp{
 		{Op: "addbit", Bit: true}, {Op: "addbit", Bit: false},
-		{Op: "addbits", V: -3, N: 13}, {Op: "addbits", V: 0x5A5A5, N: 33},
+		{Op: "addbits", V: -3, N: 13}, {Op: "addbits", V: 0x5A5A5, N: 33}, {Op: "addbits", V: -6, N: 70},
 		{Op: "addbyte", V: 0xA7},
 		{Op: "set", V: 0, Bit: true}, {Op: "set", V: 5, Bit: false}, // last bit (V%5==0 rule) / some index
 		{Op: "set", V: 31, Bit: true},
-		{Op: "iter"},
+		{Op: "iter"}, {Op: "iter2"},
 	}
 	depth := 4
 	if thorough() {
